@@ -115,9 +115,14 @@ class NodeExpandedDiGraph(nx.DiGraph):
         for node in G.nodes:
             node0 = node + '.0'
             node1 = node + '.1'
-            self.add_node(node0, **G.nodes[node])
-            self.add_node(node1, **G.nodes[node])
-            self.add_edge(node0, node1, **G.nodes[node])
+            # (attributes are copied with update(): unpacking them as keyword arguments fails for attribute names that are not
+            # strings, or that collide with a parameter name of add_node / add_edge such as 'u_of_edge')
+            self.add_node(node0)
+            self.nodes[node0].update(G.nodes[node])
+            self.add_node(node1)
+            self.nodes[node1].update(G.nodes[node])
+            self.add_edge(node0, node1)
+            self[node0][node1].update(G.nodes[node])
             if self.node_flow_attr in G.nodes[node]:
                 self[node0][node1][self.node_flow_attr] = G.nodes[node][self.node_flow_attr]
             else:
@@ -129,7 +134,8 @@ class NodeExpandedDiGraph(nx.DiGraph):
             # Adding in-coming edges
             for pred in G.predecessors(node):
                 pred1 = pred + '.1'
-                self.add_edge(pred1, node0, **G.edges[pred, node])
+                self.add_edge(pred1, node0)
+                self[pred1][node0].update(G.edges[pred, node])
                 self._edges_to_ignore.append((pred1, node0))
                 
                 # If the edge (pred,node) does not have the length attribute, set it to 0
@@ -140,7 +146,8 @@ class NodeExpandedDiGraph(nx.DiGraph):
             # Adding out-going edges
             for succ in G.successors(node):
                 succ0 = succ + '.0'
-                self.add_edge(node1, succ0, **G.edges[node, succ])
+                self.add_edge(node1, succ0)
+                self[node1][succ0].update(G.edges[node, succ])
                 # This is not necessary, as the edge (node1, succ0) has already been added above, for succ
                 # self._edges_to_ignore.append((node1, succ0))
 
